@@ -23,7 +23,7 @@ def main():
     py, xs, lits = seeds.all_seeds()
     oracles_ = ("c01",)
     pycommon.b_full(chk, oracles_, 2 if chk.quick else 3, python_only=True, lift=True)
-    ref = seeds.grammar_programs("reference", 4 if chk.quick else 10, chk.seed)
+    ref = seeds.grammar_programs("reference", 8 if chk.quick else 20, chk.seed)
     chk.extra["reference_grammar_programs"] = len(ref)
     pycommon.k0_texts(chk, oracles_, ref, "reference-grammar derivations k=0", wall=150 if chk.quick else 900)
     ep = seeds.expr_product()
@@ -33,7 +33,7 @@ def main():
     if chk.quick:
         pycommon.b_seeds_k0(chk, oracles_, py, lift=True, wall=100)
         pycommon.b_holes(chk, oracles_, seeds.sample(chk.rng, py, 60), 2, lift=True, wall=120)
-        pycommon.a_layouts(chk, oracles_, seeds.sample(chk.rng, py, 50), 2, wall=100)
+        pycommon.a_layouts(chk, oracles_, py, 2, wall=120)
         pycommon.a_holes(chk, oracles_, seeds.sample(chk.rng, py, 40), 3, wall=100)
         pycommon.b_holes(chk, oracles_, seeds.sample(chk.rng, py, 40), 2, wall=100, insert=True, name="B-holes insert k=1")
     else:
